@@ -105,7 +105,7 @@ def g_cond(rng, depth=2, for_len=False):
     if r < 0.9:
         return ('not', g_cond(rng, depth - 1, for_len))
     if r < 0.95:
-        return ('raise', fresh_name('boom'))
+        return ('raise', fresh_name('boom' if rng.random() < 0.6 else 'truth'))
     return ('const', fresh_name('konst'), rng.random() < 0.5)
 
 
@@ -279,6 +279,24 @@ def g_type(rng, depth, cfg=None, top=True):
     raise AssertionError(k)
 
 
+STD_POOL = {'decimal': ['1.5', '-2', 'NaN', 3, 2.5, 'abc', '1e5'], 'fraction': ['1/3', '2', '1/0', 5, 0.5, 'x/y'],
+                'datetime': ['2020-01-02T03:04:05', '2020-01-02', 'nope', '2020-13-01T00:00:00', '2021-05-06T07:08:09'],
+                'date': ['2020-01-02', '2020-02-30', 'x'], 'time': ['03:04:05', '25:00', '03:04'],
+                'path': ['a/b', '', '/x', 'c.txt'], 'pathlike': ['a/b', 'x'],
+                'pattern': ['a+b', '(', 'a{4294967296}', '[a-z]*', ''], 'pattern_str': ['a+b', '(', '\\d+'],
+                'pattern_bytes': [b'a+', b'(', b'x'],
+                'enum_tuple': [[1, 2], (3, 4), [[1], [2]], [1, [2]], [1, 2, 3], 5, 'x', [1, 2.0], [True, 2], [{}, 2], []],
+                'enum_complex': [1j, 2j, 0, -1j, 'x', 1, [1j]], 'enum_limit': [['limit', None], ['limit', 2], ('limit', 1), 'x', ['limit'], ['limit', 'a']],
+                'vol_int': [5, [1, 2], [], 'x', [1, 'x'], 2.5, (3,)],
+                'vol_tuple': [[1, 2], [[1, 2], [3, 4]], (5, 6), [1], [1, 2, 3], 'x', [[1, 2], [3]], [1, 'x']],
+                'vol_list': [[1, 2], [[1], [2, 3]], [], 5, [[1], 'x'], [1, [2]]],
+                'vol_range': [[0, 10, 11], {'start': 0, 'end': 10, 'n': 6}, [[0, 10, 11]], [0, 10], 'x', [[0, 10, 11], [1, 2, 3]]],
+                'range_int': [[0, 10, 11], {'start': 0, 'end': 10, 'n': 6}, {'start': 0, 'end': 10, 'step': 2}, [0], 'x', {'start': 0}]}
+STD_POOL['pattern'] += ['x{1,4294967295}', '(?P<n>a)(?P<n>b)', 'a**', '(' * 120 + ')' * 120]
+STD_POOL['pattern_str'] += ['b{4294967296}', '[']
+STD_POOL['pattern_bytes'] += [b'[0-9]{1,4294967295}', b'[', 'text']
+
+
 # ---------------------------------------------------------------- values from types
 
 def _hashable_version(v):
@@ -336,19 +354,7 @@ def g_valid(rng, term, depth=3):
         return g_scalar_value(rng, ['bytes', 'bytearray'])
     if k == 'std':
         s = term[1]
-        pool = {'decimal': ['1.5', '-2', 'NaN', 3, 2.5, 'abc', '1e5'], 'fraction': ['1/3', '2', '1/0', 5, 0.5, 'x/y'],
-                'datetime': ['2020-01-02T03:04:05', '2020-01-02', 'nope', '2020-13-01T00:00:00', '2021-05-06T07:08:09'],
-                'date': ['2020-01-02', '2020-02-30', 'x'], 'time': ['03:04:05', '25:00', '03:04'],
-                'path': ['a/b', '', '/x', 'c.txt'], 'pathlike': ['a/b', 'x'],
-                'pattern': ['a+b', '(', 'a{4294967296}', '[a-z]*', ''], 'pattern_str': ['a+b', '(', '\\d+'],
-                'pattern_bytes': [b'a+', b'(', b'x'],
-                'enum_tuple': [[1, 2], (3, 4), [[1], [2]], [1, [2]], [1, 2, 3], 5, 'x', [1, 2.0], [True, 2], [{}, 2], []],
-                'enum_complex': [1j, 2j, 0, -1j, 'x', 1, [1j]], 'enum_limit': [['limit', None], ['limit', 2], ('limit', 1), 'x', ['limit'], ['limit', 'a']],
-                'vol_int': [5, [1, 2], [], 'x', [1, 'x'], 2.5, (3,)],
-                'vol_tuple': [[1, 2], [[1, 2], [3, 4]], (5, 6), [1], [1, 2, 3], 'x', [[1, 2], [3]], [1, 'x']],
-                'vol_list': [[1, 2], [[1], [2, 3]], [], 5, [[1], 'x'], [1, [2]]],
-                'vol_range': [[0, 10, 11], {'start': 0, 'end': 10, 'n': 6}, [[0, 10, 11]], [0, 10], 'x', [[0, 10, 11], [1, 2, 3]]],
-                'range_int': [[0, 10, 11], {'start': 0, 'end': 10, 'n': 6}, {'start': 0, 'end': 10, 'step': 2}, [0], 'x', {'start': 0}]}[s]
+        pool = STD_POOL[s]
         return rng.choice(pool)
     if k == 'seq':
         items = [g_valid(rng, term[2], depth - 1) for _ in range(rng.choice([0, 1, 2, 2, 3]))]
@@ -668,4 +674,47 @@ def tagged_shape_cases(rng):
             for v in vals[6:18]:
                 out.append((('seq', 'list', term), [v]))
                 out.append((('dict', ('scalar', 'str'), term), {'k': v}))
+    return out
+
+
+def std_kind_cases(rng):
+    """every library-type target with every value of its pool, deterministically: alone, as list element, as mapping value,
+    in a union before / after str, as a dataclass field.  (term, value) pairs."""
+    import terms
+    out = []
+    for kind in ('decimal', 'fraction', 'datetime', 'date', 'time', 'path', 'pathlike', 'pattern', 'pattern_str', 'pattern_bytes'):
+        term = ('std', kind)
+        holder = {'name': terms.fresh_name('Std'), 'fields': [{'name': 'v', 'ty': term}, {'name': 'n', 'ty': ('scalar', 'int'), 'default': ('value', 0)}], 'opts': {}, 'hook': None}
+        for v in STD_POOL[kind]:
+            out.append((term, v))
+            out.append((('seq', 'list', term), [v]))
+            out.append((('dict', ('scalar', 'str'), term), {'k': v}))
+            out.append((('union', [term, ('scalar', 'str')]), v))
+            out.append((('union', [('scalar', 'int'), term]), v))
+            out.append((('class', holder), {'v': v}))
+    return out
+
+
+def raising_predicate_cases(rng):
+    """conditions whose predicate fails to evaluate (it raises / its result has no truth value), alone and under every combinator,
+    on scalar, sequence and dataclass-field targets, at top level and nested.  (term, value) pairs."""
+    import terms
+    out = []
+    for flavour in ('boom', 'truth'):
+        r = lambda: ('raise', terms.fresh_name(flavour))      # noqa: E731
+        conds = [r(), ('not', r()), ('all', [('adj', 'positive'), r()]), ('all', [r(), ('adj', 'positive')]), ('any', [('adj', 'negative'), r()]),
+                 ('any', [r(), ('const', terms.fresh_name('k'), True)]), ('all', [('const', terms.fresh_name('k'), False), r()])]
+        for cd in conds:
+            ti = ('cond', ('scalar', 'int'), cd)
+            holder = {'name': terms.fresh_name('Pr'), 'fields': [{'name': 'v', 'ty': ti}], 'opts': {}, 'hook': None}
+            for v in (1, -1, 0, 'x'):
+                out.append((ti, v))
+                out.append((('seq', 'list', ti), [v, v]))
+                out.append((('union', [ti, ('scalar', 'str')]), v))
+                out.append((('dict', ('scalar', 'str'), ti), {'k': v}))
+                out.append((('class', holder), {'v': v}))
+        tl = ('cond', ('seq', 'list', ('scalar', 'int')), r())
+        for v in ([1, 2], [], ['x'], 5):
+            out.append((tl, v))
+            out.append((('seq', 'list', tl), [v]))
     return out
